@@ -271,6 +271,11 @@ fn mk_inner(io: &vio::IoH, svc: GSvc) -> Inner {
             response_idx: Cell::new(0),
         }),
         stopping: ntex_util::channel::condition::Condition::new(),
+        flags: Flags::empty(),
+        read_remains: 0,
+        read_remains_prev: 0,
+        read_max_timeout: ntex_util::time::Seconds::ZERO,
+        keepalive_timeout: ntex_util::time::Seconds::ZERO,
         _marker: std::marker::PhantomData,
     }
 }
@@ -447,3 +452,160 @@ macro_rules! call_step_inst {
 call_step_inst!(io_call_step_n0, 0);
 call_step_inst!(io_call_step_n1, 1);
 call_step_inst!(io_call_step_n2, 2);
+
+
+// =============================================================================================
+// keep-alive and frame-read-rate timers (C20): update_timer / handle_timeout, time as a symbolic input
+use ntex_io::Decoded;
+use ntex_util::time::Seconds;
+
+fn dec_none(remains: usize) -> Decoded<u8> {
+    Decoded { item: None, remains, consumed: 0 }
+}
+fn dec_item(remains: usize) -> Decoded<u8> {
+    Decoded { item: Some(1), remains, consumed: 2 }
+}
+fn timer_inner(io: &vio::IoH, keepalive: u16) -> Inner {
+    let gate = Rc::new(Gate { done: [const { Cell::new(None) }; 3] });
+    let mut inner = mk_inner(io, GSvc(gate));
+    inner.keepalive_timeout = Seconds(keepalive);
+    inner.flags = if keepalive == 0 { Flags::empty() } else { Flags::KA_ENABLED };
+    inner
+}
+
+vharness! {
+    //@ props: C20
+    //@ tier: quick
+    //@ functions: io::DispatcherInner::{update_timer, handle_timeout} and the `Flags` bitflags (extracted verbatim from src/io.rs); ntex-io timer / config API (model)
+    //@ bounds: ARBITRARY timer state (both timer flags, byte counters u32 full width, remaining budget u16 full width), keep-alive any u16, frame read rate configured (any timeout / max_timeout / rate) or not; then ONE complete frame, then a timer expiry
+    //@ assumes: none
+    //@ mem: 10  timeout: 900
+    //@ desc: live peers are not timed out: whatever timers were armed, the arrival of a complete packet disarms both (flags cleared, partial-frame counter reset); a timer firing after that ends nothing
+    fn io_timer_frame_resets() unwind(4) {
+        let rate = if vk::any_bool() { Some((vk::any_u16(), vk::any_u16(), vk::any_u32())) } else { None };
+        vio::with_io_cfg(rate, move |io| {
+            let mut inner = timer_inner(io, vk::any_u16());
+            if vk::any_bool() { inner.flags.insert(Flags::KA_TIMEOUT); }
+            if vk::any_bool() { inner.flags.insert(Flags::READ_TIMEOUT); }
+            inner.read_remains = vk::any_u32();
+            inner.read_remains_prev = vk::any_u32();
+            inner.read_max_timeout = Seconds(vk::any_u16());
+            inner.update_timer(&dec_item(vk::any_usize()));
+            assert!(!inner.flags.contains(Flags::KA_TIMEOUT) && !inner.flags.contains(Flags::READ_TIMEOUT));
+            assert!(inner.read_remains == 0);
+            assert!(inner.handle_timeout().is_ok(), "a connection that just delivered a complete packet was timed out");
+            std::mem::forget(inner);
+        })
+    }
+}
+
+vharness! {
+    //@ props: C20
+    //@ tier: quick
+    //@ functions: io::DispatcherInner::{update_timer, handle_timeout} (extracted verbatim)
+    //@ bounds: no timer armed, nothing buffered; keep-alive any u16 (0 = disabled); frame read rate configured or not; the read returns no data; then the timer fires
+    //@ assumes: none
+    //@ mem: 10  timeout: 900
+    //@ desc: an idle connection arms the keep-alive timer with the negotiated period (once), and its expiry ends the connection with the keep-alive reason; with keep-alive disabled nothing is armed and nothing ends
+    fn io_timer_keepalive() unwind(4) {
+        let rate = if vk::any_bool() { Some((vk::any_u16(), vk::any_u16(), vk::any_u32())) } else { None };
+        vio::with_io_cfg(rate, move |io| {
+            let ka = vk::any_u16();
+            let mut inner = timer_inner(io, ka);
+            inner.update_timer(&dec_none(0));
+            if ka != 0 {
+                assert!(inner.flags.contains(Flags::KA_TIMEOUT));
+                if !vk::REPLAY {
+                    assert!(io.timer_starts() == 1 && io.timer_last() == ka, "keep-alive timer not armed with the negotiated period");
+                }
+                // a second idle poll does not re-arm (the period must not restart)
+                inner.update_timer(&dec_none(0));
+                if !vk::REPLAY {
+                    assert!(io.timer_starts() == 1);
+                }
+                assert!(matches!(inner.handle_timeout(), Err(ProtocolError::KeepAliveTimeout)), "idle connection not ended with the keep-alive reason");
+            } else {
+                assert!(!inner.flags.contains(Flags::KA_TIMEOUT));
+                assert!(inner.handle_timeout().is_ok());
+            }
+            std::mem::forget(inner);
+        })
+    }
+}
+
+vharness! {
+    //@ props: C20
+    //@ tier: quick
+    //@ functions: io::DispatcherInner::{update_timer, handle_timeout} (extracted verbatim)
+    //@ bounds: frame read rate configured: timeout 1..=u16, max_timeout any u16 (0 = no overall limit), rate any u32; a partial frame of r0 > 0 bytes arms the read timer; then TWO timer periods, in each the peer delivers more bytes (buffer grows to any larger size) or nothing; byte counts u32 full width
+    //@ assumes: the buffer of a partial frame only grows (bytes are consumed only when a frame completes)
+    //@ mem: 12  timeout: 900
+    //@ desc: slow-frame detection with time and traffic symbolic: at each expiry the frame timer is extended iff more than `rate` bytes arrived during the period just ended and the overall budget is not used up, else the connection ends with the read-timeout reason; a period without any new byte always ends it; nothing overflows
+    fn io_timer_read_rate() unwind(4) {
+        let t = vk::any_u16();
+        vk::assume(t >= 1);
+        let maxt = vk::any_u16();
+        let rate = vk::any_u32();
+        vio::with_io_cfg(Some((t, maxt, rate)), move |io| {
+            let mut inner = timer_inner(io, vk::any_u16());
+            let r0 = vk::any_u32();
+            vk::assume(r0 > 0);
+            inner.update_timer(&dec_none(r0 as usize));
+            assert!(inner.flags.contains(Flags::READ_TIMEOUT), "partial frame did not arm the frame read timer");
+            if !vk::REPLAY {
+                assert!(io.timer_starts() == 1 && io.timer_last() == t);
+            }
+            // oracle state: bytes buffered at the last check, budget left
+            let mut seen: u64 = 0;
+            let mut cur: u64 = r0 as u64;
+            let mut budget: u32 = maxt as u32;
+            let mut period = 0;
+            let mut alive = true;
+            while period < 2 && alive {
+                if vk::any_bool() {
+                    let more = vk::any_u32();
+                    vk::assume(more as u64 >= cur);
+                    cur = more as u64;
+                    inner.update_timer(&dec_none(more as usize));
+                }
+                let res = inner.handle_timeout();
+                let got = cur - seen;
+                let mut extend = got > rate as u64;
+                if extend && maxt != 0 {
+                    budget = budget.saturating_sub(t as u32);
+                    if budget == 0 {
+                        extend = false;
+                    }
+                }
+                if extend {
+                    assert!(res.is_ok(), "peer kept the configured read rate but was timed out");
+                    seen = cur;
+                } else {
+                    assert!(matches!(res, Err(ProtocolError::ReadTimeout)), "peer slower than the configured read rate was not ended with a read timeout");
+                    alive = false;
+                }
+                period += 1;
+            }
+            vcover!(alive && period == 2, "extended twice");
+            vcover!(!alive && period == 2, "extended once, then timed out");
+            std::mem::forget(inner);
+        })
+    }
+}
+
+vharness! {
+    //@ props: C20
+    //@ tier: quick
+    //@ expect: fail
+    //@ desc: reachability twin of the timer harnesses (claims an idle connection with keep-alive is never ended)
+    fn twin_io_timer() unwind(4) {
+        vio::with_io_cfg(None, move |io| {
+            let ka = vk::any_u16();
+            vk::assume(ka != 0);
+            let mut inner = timer_inner(io, ka);
+            inner.update_timer(&dec_none(0));
+            assert!(inner.handle_timeout().is_ok());
+            std::mem::forget(inner);
+        })
+    }
+}
